@@ -118,6 +118,7 @@ func bytesOf(b byte, n int) []byte {
 func TestVerifC01(t *testing.T) {
 	rep := verifkit.NewReport("C01", "c01-envelopes")
 	defer rep.Finish(t)
+	defer vRetainedCheck(rep, "C01")
 	rep.Rule = "per group type (account/contact/multi-member) x payload (0..64 KiB, random/zero/0xff/protobuf-looking) x receiver (other member, sibling device): " +
 		"honest open (with/without CID, re-open), every single-bit flip of envelopes <= 300 bytes (seeded positions beyond; every bit <= 4 KiB in thorough), " +
 		"field substitutions re-boxed under the group secret (device, counter, signature, payload, nonce, cross-group, header/payload mix) and insider forgeries, among them the genuine signature reused over content derived from the signed bytes (digests, prefixes, the inner payload). " +
